@@ -86,12 +86,6 @@ Theorem C01_guard_sites :
 Proof. exact (conj size_components_positive (conj valid_length_positive bound01_positive)). Qed.
 Print Assumptions C01_guard_sites.
 
-(* ---- the same clamp is where the debug assertion of f32_bound is REFUTED (known class
-   f32-bound-debug-assert): the value need not be finite when it gets there ---- *)
-Theorem C01_f32_bound_finite_refuted : exists x, x <> XNaN /\ x_is_finite x = false /\ x_normalized (x_bound01 x) = true.
-Proof. exists XPInf. split; [discriminate|split; reflexivity]. Qed.
-Print Assumptions C01_f32_bound_finite_refuted.
-
 (* ---- panic-site ledger: every unwrap / expect / assert / debug_assert / unreachable / index expression of
    the C01 anchor files has an entry (proved guard, constant argument, reviewed, or registered finding), and
    the ledger has no entry for a site that no longer exists ---- *)
